@@ -336,7 +336,10 @@ def check_list(ctx, case):
         rows = [rows[i] for i in rng.permutation(len(rows))]
         meas = gen.values(rng, (len(case['obs_lab']), case['n_ch']), case['vkind'])
         ds = build_ds(case, meas=meas, rows=rows)
-        ds.descriptors = {'subj': f'sub{k}', 'site': 'A'}
+        # two dataset descriptors vary between the datasets; the dicts are filled in different key orders (as happens
+        # when they are assembled by different code paths)
+        ds.descriptors = {'subj': f'sub{k}', 'sess': 10 + k, 'site': 'A'} if k % 2 == 0 else \
+            {'site': 'A', 'sess': 10 + k, 'subj': f'sub{k}'}
         dss.append(ds)
         refs.append(ref_of(case, meas=meas[rows], obs_lab=[case['obs_lab'][i] for i in rows]))
         if any(np.isnan(v) for v in refs[-1].values()):
@@ -369,7 +372,12 @@ def check_list(ctx, case):
         ctx.fail('list_vs_reference', dict(sig, aspect='rdm_descriptors'),
                  f'varying dataset descriptor subj not turned into rdm descriptor: {subj!r}', data())
         return
+    sess = rd.rdm_descriptors.get('sess')
     for i in range(n_ds):
+        if not str(subj[i]).startswith('sub') or sess is None or str(sess[i]) != str(10 + int(str(subj[i])[3:])):
+            ctx.fail('list_vs_reference', dict(sig, aspect='rdm_descriptors'), f'dataset descriptors of RDM {i} do not belong '
+                     f'together: subj {subj[i]!r}, sess {None if sess is None else sess[i]!r}', data())
+            return
         k = int(str(subj[i])[3:])  # which dataset this RDM claims to be
         if not compare_to_ref(ctx, 'list_vs_reference', sig, rd, refs[k], i_rdm=i, data=data,
                               allow_nan_for=True):
